@@ -5,6 +5,9 @@ import Poulpy.Model.Core.Expand
 import Poulpy.Lemmas.ExpandIdx
 import Poulpy.Lemmas.ExpandPhase
 import Poulpy.Lemmas.NegHal
+import Poulpy.Lemmas.EpBridge
+import Poulpy.Model.Core.Mul
+import Poulpy.Props.C03
 
 /-!
 # C04 — external products and CMux multiply by the EpGGSW plaintext within noise
@@ -26,9 +29,9 @@ Layers
   `ggsw_encrypt_sk` produces: row `r`, column `c` carries `m2·σ_c` at limb `(r+1)·dsize − 1`) the
   first sum is the gadget recomposition of the digits, i.e. the phase of the decomposed GLWE minus
   the dropped limbs.
-* repaired defect (`epInternal_stale_witness_partial`): until poulpy d3c2e96 the result of
-  `glwe_external_product_internal` depended on the prior content of `res_dft` for `dsize ≥ 3`
-  (`Cmux` does not zero it); the former counterexample is now the regression instance.
+* determinacy (`epInternal_determined`, every `dsize`) and the `dsize = 1` bridge (`ep_executed_phase_dsize1`,
+  `ep_executed_identity_dsize1`) are about the executed `Core.epInternal`; until poulpy d3c2e96 determinacy was false
+  for `dsize ≥ 3` (`Cmux`/`Cswap` do not zero `res_dft`), the former counterexample is the regression instance.
 -/
 
 namespace C04
@@ -231,31 +234,100 @@ theorem secretTensorIdx_surjective_partial :
 
 example : ∃ i, i < 3 ∧ ∃ j, j < 3 ∧ i ≤ j ∧ secretTensorIdx 3 i j = 5 := by decide
 
-/-
-FULL STATEMENT (not proved in general): for every EpGGSW `g` (any `dsize`), every input `a` and every
-prior content `res0 res0'` / `tmp0 tmp0'` of the two scratch DFT buffers,
-`epInternal a g res0 tmp0 = epInternal a g res0' tmp0'`  (the result is determined by its inputs).
-History: this was FALSE of the code for `dsize ≥ 3` until poulpy d3c2e96 (pass `di = 0` shrank
-`res_dft` to `size − (dsize − 2)` limbs and the later passes added into the never-written tail;
-`Cmux`/`Cswap` do not zero `res_dft`).  This slice proved the negation on the witness below and
-reproduced it on all four back ends; the code now zeroes the skipped limbs (`zeroTail`), the model
-follows, and the former witness is the regression example.  The general statement needs the
-`Buf.setFlat`/`Buf.act` plumbing lemmas (`_partial`: instance only).
--/
+/-! ## The executed external product (`Core.epInternal`): determinacy and the `dsize = 1` bridge -/
 
-/-- the former witness: `n = 1`, rank 1, `dsize = 3`, EpGGSW of 4 limbs -/
+/-- **Determinacy of `glwe_external_product_internal`, every digit size.**  The big accumulator returned by the
+executed model does not depend on the previous contents of the two scratch DFT buffers (`res_dft`, which the CMux
+forms and `Cswap` do not zero, and `res_dft_tmp`, which nobody zeroes): no stale scratch data can reach an external
+product, a CMux or a Cswap.  (False of the code for `dsize ≥ 3` until poulpy d3c2e96 — this slice proved the negation
+on a witness and reproduced it on the four back ends; the former witness is the example below.) -/
+theorem epInternal_determined (a : List Col) (g : EpGGSW) (res0 res0' tmp0 tmp0' : List Col) (hd : 1 ≤ g.dsize)
+    (h0 : shapeOk g.n (g.rank + 1) g.size res0 = true) (h0' : shapeOk g.n (g.rank + 1) g.size res0' = true)
+    (ht : shapeOk g.n (g.rank + 1) g.size tmp0 = true) (ht' : shapeOk g.n (g.rank + 1) g.size tmp0' = true) :
+    epInternal a g res0 tmp0 = epInternal a g res0' tmp0' :=
+  Core.epInternal_determined a g res0 res0' tmp0 tmp0' hd h0 h0' ht ht'
+
+/-- the former witness of the defect (`n = 1`, rank 1, `dsize = 3`, GGSW of 4 limbs) -/
 def staleG : EpGGSW :=
   { base2k := 4, n := 1, rank := 1, dsize := 3, dnum := 1, size := 4,
     cells := [[[[1], [0], [0], [0]], [[0], [0], [0], [0]]], [[[0], [0], [0], [0]], [[1], [0], [0], [0]]]] }
 
-/-- on the former witness the result no longer depends on the stale content of `res_dft` … -/
-theorem epInternal_stale_witness_partial :
-    epInternal [[[1], [2], [3]], [[0], [1], [0]]] staleG [[[0], [0], [0], [7]], [[0], [0], [0], [0]]] (zeroCols 1 2 4)
-      = epInternal [[[1], [2], [3]], [[0], [1], [0]]] staleG (zeroCols 1 2 4) (zeroCols 1 2 4) := by
-  decide
+example : epInternal [[[1], [2], [3]], [[0], [1], [0]]] staleG [[[0], [0], [0], [7]], [[0], [0], [0], [0]]] (zeroCols 1 2 4)
+    = epInternal [[[1], [2], [3]], [[0], [1], [0]]] staleG (zeroCols 1 2 4) (zeroCols 1 2 4) :=
+  epInternal_determined _ staleG _ _ _ _ (by decide) (by decide) (by decide) (by decide) (by decide)
 
-/-- … and is the expected product -/
 example : epInternal [[[1], [2], [3]], [[0], [1], [0]]] staleG (zeroCols 1 2 4) (zeroCols 1 2 4)
     = [[[3], [0], [0], [0]], [[0], [0], [0], [0]]] := by decide
+
+/-- **Bridge, `dsize = 1`, layer A on the executed definition.**  Limb `l` of the phase of what `Core.epInternal`
+returns (through `Buf.setFlat` / `Buf.act` and the `vec_znx_dft_apply` column loop) is the digit-weighted sum of the
+phases of limb `l` of the GGSW rows, the digits being the limbs of the input in storage order. -/
+theorem ep_executed_phase_dsize1 (sk : List Poly) (a : List Col) (g : EpGGSW) (res0 tmp0 : List Col) (l : Nat)
+    (h1 : g.dsize = 1) (h0 : shapeOk g.n (g.rank + 1) g.size res0 = true)
+    (ha : shapeOk g.n (g.rank + 1) (a.getD 0 []).length a = true) (hl : l < g.size)
+    (hM : ∀ j q, (g.toPMat.entry j q).length = g.n) :
+    Ks.phaseRow sk ((epInternal a g res0 tmp0).map (fun col => limbOr0 g.n col l)) =
+      sumR g.n (fun j => Hal.negMul ((mkBuf g.n (g.rank + 1) (a.getD 0 []).length a).flat.getD j (zeroP g.n))
+          (Ks.phaseRow sk (Ks.rowLimb g.toPMat j l)))
+        (min ((g.rank + 1) * g.dnum) ((a.getD 0 []).length * (g.rank + 1))) :=
+  epInternal_phase_dsize1 sk a g res0 tmp0 l h1 h0 ha hl hM
+
+/-- **External-product identity on the executed model (`dsize = 1`, in full).**  If limb `l` of the phase of GGSW
+row `j` is `m2 ⋆ w_j + e_j`, limb `l` of the phase of the executed product is `m2 ⋆ (Σ_j d_j ⋆ w_j) + Σ_j d_j ⋆ e_j`,
+`d_j` the input limbs: `ep_identity` is a statement about `Core.epInternal`. -/
+theorem ep_executed_identity_dsize1 (sk : List Poly) (a : List Col) (g : EpGGSW) (res0 tmp0 : List Col) (l : Nat)
+    (m2 : Poly) (w e : Nat → Poly)
+    (h1 : g.dsize = 1) (h0 : shapeOk g.n (g.rank + 1) g.size res0 = true)
+    (ha : shapeOk g.n (g.rank + 1) (a.getD 0 []).length a = true) (hl : l < g.size)
+    (hM : ∀ j q, (g.toPMat.entry j q).length = g.n)
+    (hw : ∀ j, j < min ((g.rank + 1) * g.dnum) ((a.getD 0 []).length * (g.rank + 1)) → (w j).length = g.n)
+    (he : ∀ j, j < min ((g.rank + 1) * g.dnum) ((a.getD 0 []).length * (g.rank + 1)) → (e j).length = g.n)
+    (hP : ∀ j, j < min ((g.rank + 1) * g.dnum) ((a.getD 0 []).length * (g.rank + 1)) →
+      Ks.phaseRow sk (Ks.rowLimb g.toPMat j l) = polyAdd (Hal.negMul m2 (w j)) (e j)) :
+    Ks.phaseRow sk ((epInternal a g res0 tmp0).map (fun col => limbOr0 g.n col l)) =
+      polyAdd
+        (Hal.negMul m2 (sumR g.n (fun j =>
+          Hal.negMul ((mkBuf g.n (g.rank + 1) (a.getD 0 []).length a).flat.getD j (zeroP g.n)) (w j))
+          (min ((g.rank + 1) * g.dnum) ((a.getD 0 []).length * (g.rank + 1)))))
+        (sumR g.n (fun j =>
+          Hal.negMul ((mkBuf g.n (g.rank + 1) (a.getD 0 []).length a).flat.getD j (zeroP g.n)) (e j))
+          (min ((g.rank + 1) * g.dnum) ((a.getD 0 []).length * (g.rank + 1)))) := by
+  rw [ep_executed_phase_dsize1 sk a g res0 tmp0 l h1 h0 ha hl hM]
+  exact ep_identity g.n m2 _ _ w e _ hw he hP
+
+/-- the gadget product executed by row expansion and by relinearisation **is** C03's `gglwe_product_dft`
+(`Ks.gglweProductDft`): `C03.keyswitch_phase_dsize1`, `C03.keyswitch_phase_dsize_gt1` (limb regrouping = digit
+decomposition, `C03.limb_used_iff`, `C03.used_value_is_input_value`) and `C03.gadget_identity` are statements about it. -/
+theorem gglweProductDft_is_ks (a : List Col) (g : GGLWE) (resSize : Nat) (res0 : List Col) :
+    Core.gglweProductDft a g resSize res0 =
+      (List.range g.colsOut).map
+        (Ks.gglweProductDft (mkBuf g.n g.colsOut resSize res0) (mkBuf g.n g.colsIn (a.getD 0 []).length a) g.toKey).act := rfl
+
+example : Core.gglweProductDft [[[1]]] { base2k := 4, n := 1, colsIn := 1, colsOut := 1, dsize := 1, dnum := 1, size := 1, cells := [[[[3]]]] }
+    1 [[[9]]] = [[[3]]] := by decide
+
+/-- … and its result does not depend on the previous content of `res_dft` (row expansion zeroes it, relinearisation
+does not): `C03.product_determined` on the executed definition, every digit size. -/
+theorem gglweProductDft_determined (a : List Col) (g : GGLWE) (res0 res0' : List Col) (hd : 1 ≤ g.dsize)
+    (h0 : shapeOk g.n g.colsOut g.size res0 = true) (h0' : shapeOk g.n g.colsOut g.size res0' = true) :
+    Core.gglweProductDft a g g.size res0 = Core.gglweProductDft a g g.size res0' := by
+  rw [gglweProductDft_is_ks, gglweProductDft_is_ks]
+  have s0 := (mkBuf_shape g.n g.colsOut g.size res0 h0).1
+  have s0' := (mkBuf_shape g.n g.colsOut g.size res0' h0').1
+  apply List.map_congr_left
+  intro c hc
+  exact C03.product_determined _ _ (mkBuf g.n g.colsIn (a.getD 0 []).length a) g.toKey hd s0.1 s0'.1 rfl rfl rfl rfl rfl rfl rfl rfl c (List.mem_range.mp hc)
+
+example : Core.gglweProductDft [[[1]]] { base2k := 4, n := 1, colsIn := 1, colsOut := 1, dsize := 1, dnum := 1, size := 1, cells := [[[[3]]]] }
+    1 [[[9]]] = Core.gglweProductDft [[[1]]] { base2k := 4, n := 1, colsIn := 1, colsOut := 1, dsize := 1, dnum := 1, size := 1, cells := [[[[3]]]] }
+    1 [[[0]]] := by decide
+
+/-
+NOT PROVED: the phase statement of `Core.epInternal` for `dsize > 1` (its loop differs from `gglwe_product_dft` only by
+the missing `.min(dnum)` on the digit buffer, which `vmp` truncates anyway — `C07.vmp_row_truncation`; the accumulation
+lemma `C03.product_accum_dsize_gt1` is proved for the clamped loop and is not transported); for `dsize > 1` the
+layer-B identity (`ep_identity` per pass via `vmp_phase`, C03's regrouping lemmas) is therefore about `Hal.vmpFlat`, not
+about `epInternal`.  Determinacy (`epInternal_determined`) holds for every `dsize`.
+-/
 
 end C04
